@@ -46,8 +46,39 @@ CATALOG = [
     ("name", "bcrypt.kdf", ["ValueError"], "empty password/salt, rounds < 1"),
     ("attr", "private_key", ["ValueError"], "RSAPrivateNumbers.private_key validates the numbers"),
     ("name", "ec.derive_private_key", ["ValueError"], "scalar out of range"),
-    ("name", "struct.unpack", ["struct.error"], "buffer of the wrong size"),
+    ("pred", lambda f, c: _unpack_may_fail(f, c), ["struct.error"], "buffer of the wrong size"),
 ]
+
+
+def _unpack_may_fail(f, call):
+    """struct.unpack(fmt, buf) raises unless buf has exactly calcsize(fmt) bytes.  Two idioms of this code base establish
+    that: (a) buf is `self.get_bytes(k)` inside Message with k == calcsize(fmt) - get_bytes pads short reads with zero
+    bytes up to k (its shape is C39's R1.pair-agreement:get_bytes); (b) buf is `X[i:i + w]` with `for i in range(0,
+    len(X), w)` after X was left-padded to a multiple of w under `if len(X) % w:` (util.inflate_long)."""
+    import struct as _struct
+    if dotted(call.func) != "struct.unpack":
+        return False
+    if len(call.args) != 2 or not (isinstance(call.args[0], ast.Constant) and isinstance(call.args[0].value, str)):
+        return True
+    try:
+        size = _struct.calcsize(call.args[0].value)
+    except _struct.error:
+        return True
+    buf = call.args[1]
+    if (isinstance(buf, ast.Call) and unparse(buf.func) == "self.get_bytes" and len(buf.args) == 1 and isinstance(buf.args[0], ast.Constant)
+            and buf.args[0].value == size and f.cls is not None and f.cls.name == "Message"):
+        return False
+    if isinstance(buf, ast.Subscript) and isinstance(buf.slice, ast.Slice) and isinstance(buf.value, ast.Name) and isinstance(buf.slice.lower, ast.Name):
+        X, i = buf.value.id, buf.slice.lower.id
+        if buf.slice.upper is not None and unparse(buf.slice.upper) in ("%s + %d" % (i, size), "%d + %s" % (size, i)):
+            loops = [n for n in walk_no_defs(f.node) if isinstance(n, ast.For) and isinstance(n.target, ast.Name) and n.target.id == i
+                     and unparse(n.iter) == "range(0, len(%s), %d)" % (X, size) and any(x is call for x in ast.walk(n))]
+            pads = [n for n in walk_no_defs(f.node) if isinstance(n, ast.If) and unparse(n.test) == "len(%s) %% %d" % (X, size)
+                    and any(isinstance(st, ast.Assign) and unparse(st.targets[0]) == X and
+                            unparse(st.value).endswith("* (%d - len(%s) %% %d) + %s" % (size, X, size, X)) for st in n.body)]
+            if loops and pads and pads[0].lineno < loops[0].lineno:
+                return False
+    return True
 
 
 def lib_verify_call(call):
@@ -480,6 +511,8 @@ def unguarded_variable_subscripts(prog, finfo):
                         var, need = e.right.id, 0
                 if var is None:
                     continue
+                if isinstance(e, ast.Name) and _range_len_bounded(fl, finfo, n, x, e.id, X):
+                    continue
                 # a constant-valued index variable is the constant-subscript rule's business
                 ds = fl.defs(var, n)
                 if ds and all(rhs is not None and isinstance(rhs, ast.Constant) for (dn, rhs) in ds):
@@ -500,6 +533,35 @@ def unguarded_variable_subscripts(prog, finfo):
                 out.append((x, "index %s of %s: %s" % (unparse(e), X, "no test relates it to len(%s)" % X if best is None else
                                                        "the dominating test only establishes %s <= len(%s)%+d, needs %+d" % (var, X, best, need))))
     return out
+
+
+def _range_len_bounded(fl, finfo, n, sub, i, X):
+    """`X[i]` inside `for i in range(len(Y))` (or range(0, len(Y))) with i not rebound in the body, where Y is X itself or
+    a sequence whose length was tested equal to X's on every path to the loop (`if len(X) != len(Y): return/raise`)."""
+    from .cfg import assigned_names
+    for p in _parents(sub):
+        if not (isinstance(p, ast.For) and isinstance(p.target, ast.Name) and p.target.id == i and isinstance(p.iter, ast.Call) and unparse(p.iter.func) == "range"):
+            continue
+        args = [unparse(a) for a in p.iter.args]
+        if len(args) == 2 and args[0] == "0":
+            args = args[1:]
+        if len(args) != 1 or not (args[0].startswith("len(") and args[0].endswith(")")):
+            return False
+        Y = args[0][4:-1]
+        if any(isinstance(st, (ast.Assign, ast.AugAssign)) and i in [unparse(t) for t in (st.targets if isinstance(st, ast.Assign) else [st.target])]
+               for st in ast.walk(p) if st is not p):
+            return False
+        if any(isinstance(st, (ast.Assign, ast.AugAssign, ast.Delete)) and any(unparse(t).split("[")[0] in (X, Y) for t in
+               (st.targets if isinstance(st, (ast.Assign, ast.Delete)) else [st.target])) for st in ast.walk(p) if st is not p):
+            return False        # the sequence changes inside the loop
+        if Y == X:
+            return True
+        eq = ("len(%s) != len(%s)" % (X, Y), "len(%s) != len(%s)" % (Y, X))
+        ne = ("len(%s) == len(%s)" % (X, Y), "len(%s) == len(%s)" % (Y, X))
+        gF = fl.edge_guard(lambda t: unparse(t) in eq, "F")
+        gT = fl.edge_guard(lambda t: unparse(t) in ne, "T")
+        return fl.dominated([n], guard_edge=lambda s_, lab, d: gF(s_, lab, d) or gT(s_, lab, d))
+    return False
 
 
 def _parents(node):
